@@ -277,6 +277,7 @@ def run(ctx):
             d = float(np.max(np.hypot(*(res['sky_chart'] - real_chart))))
             if not np.isfinite(d) or d > cb:
                 ctx.disagree(case, {'op': 'gcorr' if sim.jwst else 'fcorr', 'member': k, 'max_diff': d, 'bound': cb})
+    from . import c05_groupalign; c05_groupalign.run_extra(ctx)   # align_to_ref at group level (model TW.GA, op `groupalign`)
 
 
 REPLAY_BY_RERUN = True
